@@ -95,7 +95,7 @@ func c20MapParallel(t *rapid.T, rec *core.Recorder) {
 
 type c20Opts struct {
 	OnDemand, Summaries, Coverage, Paths, NoCallee, Escape bool
-	LogLevel, Procs                                       int
+	LogLevel, Procs                                        int
 }
 
 func (o c20Opts) String() string {
@@ -223,7 +223,7 @@ func TestC20(t *testing.T) {
 	rec.Assumptions = []string{"the race detector only sees interleavings that happen; repetition and varying GOMAXPROCS sample them"}
 	defer rec.Flush()
 	replayKnown(t, "C20")
-	rapidSetup(env.Pick(3000, 100000), 20)
+	rapidSetup(env.Pick(3000, 30000), 20)
 	rapid.Check(t, func(rt *rapid.T) { c20MapParallel(rt, rec) })
 	if t.Failed() {
 		return
@@ -231,7 +231,7 @@ func TestC20(t *testing.T) {
 	off := excluded()
 	reports := filepath.Join(env.Out, fmt.Sprintf("reports-c20-%d", env.Shard), "r")
 	_ = os.MkdirAll(filepath.Dir(reports), 0o755)
-	rapidSetup(env.Pick(120, 3000), 21)
+	rapidSetup(env.Pick(120, 1200), 21)
 	rapid.Check(t, func(rt *rapid.T) {
 		prog := gogen.Generate(rt, gogen.FlowProfile(nil))
 		files := map[string]string{"main.go": prog.Main, "prelude.go": gogen.AnalysedPrelude}
@@ -248,7 +248,9 @@ func TestC20(t *testing.T) {
 			if rep == 0 {
 				rec.Case(core.Hash(prog.Main, o.String()), (o.Summaries || o.Coverage || o.Paths || o.NoCallee) && nsum >= 30,
 					[]string{fmt.Sprintf("summaries:%v", o.Summaries), fmt.Sprintf("ondemand:%v", o.OnDemand), fmt.Sprintf("escape:%v", o.Escape)},
-					func() any { return map[string]any{"options": o.String(), "summaries": nsum, "program_lines": strings.Count(prog.Main, "\n")} })
+					func() any {
+						return map[string]any{"options": o.String(), "summaries": nsum, "program_lines": strings.Count(prog.Main, "\n")}
+					})
 			}
 			if strings.HasPrefix(msg, "HARNESS") {
 				rt.Fatalf("%s", msg)
